@@ -719,6 +719,46 @@ impl LWorld {
                 }
                 res
             }
+            "lpoke" => {
+                let n: usize = w[1].parse().unwrap_or(1);
+                let waker = futures::task::noop_waker();
+                let mut cx = std::task::Context::from_waker(&waker);
+                macro_rules! poke {
+                    ($fut:expr, $r:ident => $fmt:expr) => {{
+                        let mut fut = Box::pin($fut);
+                        let mut out = None;
+                        for _ in 0..n {
+                            if let std::task::Poll::Ready($r) = fut.as_mut().poll(&mut cx) {
+                                out = Some($fmt);
+                                break;
+                            }
+                            tokio::task::yield_now().await;
+                        }
+                        out
+                    }};
+                }
+                let res: Option<String> = match &self.obj {
+                    LObj::V(l) => poke!(l.get(), r => match r {
+                        Ok(v) => format!("ok {} adv=-", hex(&v)),
+                        Err(e) => {
+                            use remoc::robj::lazy::FetchError::*;
+                            format!("err {}", match e { Dropped => "dropped", RemoteReceive(_) => "recv", RemoteConnect(_) => "connect", RemoteListen(_) => "listen" })
+                        }
+                    }),
+                    LObj::B(b) => {
+                        let adv = b.len().map(|n| n.to_string()).unwrap_or("-".into());
+                        poke!(b.get(), r => match r {
+                            Ok(v) => format!("ok {} adv={adv}", hex(&Vec::from(v))),
+                            Err(e) => {
+                                use remoc::robj::lazy_blob::FetchError::*;
+                                format!("err {}", match e { Dropped => "dropped", Size(_) => "size", RemoteReceive(_) => "recv", RemoteConnect(_) => "connect" })
+                            }
+                        })
+                    }
+                    LObj::None => Some("err none".into()),
+                };
+                res.unwrap_or_else(|| "pending".into())
+            }
             "ldropprov" => {
                 self.prov = LProv::None;
                 "ok".into()
@@ -762,6 +802,14 @@ async fn run_lazy_case(header: &[&str], ops: &[String], out: &mut Vec<String>) {
         let words: Vec<&str> = op.split_whitespace().collect();
         let res = w.exec(&words, &mut r).await;
         settle().await;
+        if words[0] == "lpoke" {
+            // a `get()` that was polled a few times and dropped: if it completed it is an ordinary fetch, otherwise
+            // it must leave no trace (cancel safety) and is not shown to the model
+            if res != "pending" {
+                out.push(format!("lfetch - - = {res}"));
+            }
+            continue;
+        }
         out.push(format!("{op} = {res}"));
     }
 }
@@ -1080,6 +1128,11 @@ fn gen_lazy_case(r: &mut Rng, name: &str, stats: &mut Stats, long: bool) -> (Str
         ops.push(format!("lfetch {hop} {budget}"));
         stats.hit("lazy_fetch_with_cut");
     } else {
+        if hops > 0 && r.chance(1, 2) {
+            // a fetch that is started and dropped after a few polls; the fetch that follows must still succeed
+            ops.push(format!("lpoke {}", r.range(1, 4)));
+            stats.hit("lazy_fetch_poked");
+        }
         ops.push("lfetch - -".into());
         stats.hit("lazy_fetch_plain");
     }
